@@ -483,3 +483,26 @@ Proof.
   - destruct (octets_eqb issuer issuer && octets_eqb serial (serial ++ extra)) eqn:E; [|reflexivity].
     apply key_match_iff in E. destruct E as [_ E]. symmetry in E. contradiction.
 Qed.
+
+(* ------------------------------------------------------------------ wave 3: x509_cert_check_crl *)
+Theorem cert_check_crl_ok_iff : forall fetch p c i s es serial,
+  Forall (fun e => e <> None) es ->
+  (cert_check_crl fetch p c i s es serial = true <->
+   fetch = FetchOk /\ p = true /\ c = true /\ i = true /\ s = true /\ ~ In (Some serial) (map serial_of es)).
+Proof.
+  intros fetch p c i s es serial Hall. destruct (crl_lookup_iff_listed es serial Hall) as (_ & Hn & _).
+  unfold cert_check_crl. destruct fetch; try (split; [discriminate|intros (H & _); discriminate]).
+  rewrite !andb_true_iff. split.
+  - intros [[[[Hp Hc] Hi] Hs] Hf]. repeat split; try assumption. apply Hn.
+    destruct (find_revoked es serial); [discriminate|reflexivity|discriminate].
+  - intros (_ & Hp & Hc & Hi & Hs & Hl). repeat split; try assumption. apply Hn in Hl. rewrite Hl. reflexivity.
+Qed.
+
+(* a listed serial is never reported clean, whatever else holds *)
+Corollary cert_check_crl_listed : forall fetch p c i s es serial,
+  Forall (fun e => e <> None) es -> In (Some serial) (map serial_of es) ->
+  cert_check_crl fetch p c i s es serial = false.
+Proof.
+  intros fetch p c i s es serial Hall Hin. destruct (cert_check_crl fetch p c i s es serial) eqn:E; [|reflexivity].
+  apply (cert_check_crl_ok_iff _ _ _ _ _ _ _ Hall) in E. destruct E as (_ & _ & _ & _ & _ & Hn). contradiction.
+Qed.
